@@ -255,5 +255,7 @@ def run(chk, tier):
                 chk.expect(yields_err or eof_guard, "reader-errors-surface", short, f"Err arm #{ordn} ({sp[:60]})", "yields the error, or guarded by <bound io error>.kind() == UnexpectedEof",
                            {"guard": gtxt[:160], "body": txt[:120]}, loc=f"{h['loc']['f']}:{ln}")
     chk.floor("reader-errors-surface", "Err arms of the two token readers", n_arms, 14)
+    from . import shared
+    shared.pdata_reader_error_kinds(chk, fx, "pdata-errors-are-not-eof")
     chk.undecided.append("which operation fails at which point (fault enumeration); errors swallowed inside third-party crates; flate2 writes its final block on drop "
                          "(DataRWAdapter returns Box<dyn Write> and offers no finish): design limitation recorded in DESIGN.md")
